@@ -13,11 +13,13 @@ import unicodedata
 import warnings
 from decimal import Decimal
 
+import translate.literal_regex
 from harness import core
 from harness.core import Atom
 
 ID = "C14"
-LEAN_MODULES = ["JinjaV.Props.C14"]
+LEAN_MODULES = ["JinjaV.Props.C14", "JinjaV.Props.C14Regex"]
+GEN = [translate.literal_regex.gen]
 LEVEL = "proof"
 TRUSTED = [
     "Model/Lex.lean hand scanners for integer_re / float_re / string_re and Model/Literal.lean (int(s, 0), literal_eval on "
@@ -221,8 +223,17 @@ def check_number_e2e(env, res, sp, pv, stats, via="enum"):
                     {"kind": "number", "spelling": sp})
 
 
+def intensified(ctx):
+    """the regexes read from lexer.py differ from the transcribed ones (or cannot be read): search at the thorough budget"""
+    return bool(getattr(ctx, "gen_changed", None) or getattr(ctx, "tie_broken", None) or getattr(ctx, "proof_broken", None))
+
+
+def pick(ctx, quick, thorough):
+    return thorough if intensified(ctx) else ctx.pick(quick, thorough)
+
+
 def run_numbers(ctx, res, env):
-    n = ctx.pick(4, 5)
+    n = pick(ctx, 4, 5)
     rep = core.driver_batch([[Atom("lit-num-enum"), ALPHABET, n, ""]])[0]
     if rep[0] != "ok":
         raise core.HarnessError(f"lit-num-enum: {rep!r:.200}")
@@ -419,8 +430,8 @@ def py_repr_quote(s):
 
 def run_strings(ctx, res, env, jinja2):
     rng = ctx.rng("strings")
-    ncases = ctx.pick(1500, 20000)
-    maxlen = ctx.pick(10, 24)
+    ncases = pick(ctx, 1500, 20000)
+    maxlen = pick(ctx, 10, 24)
     cases = []
     fixed = [[], [39], [34], [39, 34], [92], [92, 92], [92, 39], [10], [13], [13, 10], [0], [0xE9], [0xD800], [0xDC00, 0xD800],
              [0xD83D, 0xDE00], [0x1F600], [0x10FFFF], [0x7F], [0x80], [0xFF], [0x100], [0xFFFF], [0x10000], [92, 0xE9],
@@ -604,7 +615,7 @@ def python_body_value(body, q):
 
 def run_soups(ctx, res, env):
     rng = ctx.rng("soups")
-    ncases = ctx.pick(2500, 40000)
+    ncases = pick(ctx, 2500, 40000)
     reqs, meta = [], []
     stats = {"cases": 0, "python_unavailable": 0, "errors_both": 0, "f13_hits": 0, "model_oom": 0, "named": 0,
              "values_equal": 0}
@@ -615,7 +626,7 @@ def run_soups(ctx, res, env):
     cases = list(fixed)
     for _ in range(ncases):
         q = rng.choice("'\"")
-        items = [it for it in gen_soup(rng, ctx.pick(8, 14)) if it != q and it != "\r"]
+        items = [it for it in gen_soup(rng, pick(ctx, 8, 14)) if it != q and it != "\r"]
         cases.append((q, "".join(items)))
     for q, body in cases:
         body = body.replace("\r", "")
@@ -881,8 +892,8 @@ def run(ctx, res):
         "evaluations": evaluations,
         "distinct_nontrivial": ndist + sdist + udist + vdist,
         "exhaustive": False,
-        "exhaustive_part": f"(a) is a complete enumeration of the {nstats['spellings']} spellings of length 1..{ctx.pick(4, 5)}; (b)-(d) are random",
-        "rule": (f"(a) every spelling of length 1..{ctx.pick(4, 5)} over [{ALPHABET}] (exhaustive): real tokeniter+wrap, Python's "
+        "exhaustive_part": f"(a) is a complete enumeration of the {nstats['spellings']} spellings of length 1..{pick(ctx, 4, 5)}; (b)-(d) are random",
+        "rule": (f"(a) every spelling of length 1..{pick(ctx, 4, 5)} over [{ALPHABET}] (exhaustive): real tokeniter+wrap, Python's "
                  "ast.parse, Lean model (tag lexer + int/float conversion) and Lean reference grammar; non-trivial = read as "
                  "one number by at least one of the four; each spelling the lexer reads as a number also goes through "
                  "compile_expression and render. (b) random code point strings over 12 classes in repr / other-quote / "
@@ -898,6 +909,7 @@ def run(ctx, res):
         "escape_soups": ustats,
         "values": vstats,
         "nonfinite_constants": fstats,
+        "intensified_search": intensified(ctx),
     })
 
 
